@@ -7,7 +7,36 @@ VERIF = os.path.dirname(os.path.dirname(os.path.abspath(__file__)))
 PROPS = [json.loads(l) for l in open(os.path.join(VERIF, 'properties.jsonl'))]
 
 # pid -> (claimed?, level text, level note, technique)
+NOTE = ("trusted: Lean kernel + propext/Classical.choice/Quot.sound; the hand-written model's faithfulness is checked "
+        "by the correspondence run on every invocation (differential, bounded by the generators); numpy/hpgeom/astropy "
+        "primitives are modelled, not verified. ")
+TECH = "Lean 4 theorems over an executable model + model/implementation correspondence"
 CLAIMS = {
+    'C01': ("Lean proof that the model's update path refines a dense array for every history/configuration "
+            "(C01.history_refines, updateCore_refines, never_written_reads_sentinel, clear_spec); correspondence of the "
+            "model with /repo on generated histories incl. every read path and a malformed stream", NOTE, TECH, "6 C01"),
+    'C02': ("Lean proof that valid_pixels / n_valid / coverage_map / valid_pixels_single_covpix / fracdet agree with the "
+            "dense valid set for every layout-invariant state and that the n_valid cache is coherent; correspondence "
+            "with query-mutate-query histories over eleven observers", NOTE, TECH, "6 C02"),
+    'C04': ("Lean proof that make_empty / growth / update / ranges / scalar and boolean operators / conversions preserve "
+            "the published layout invariant (Inv), with a verified executable checker (checkInv_iff) run on the REAL "
+            "arrays after every call of every generator", NOTE, TECH, "6 C04"),
+    'C08': ("Lean proof that the slice path of range updates equals the explicit-pixel update for all range arrays "
+            "(ranges_eq_explicit, updateRanges_refines, expand_upgrade); twin-path correspondence", NOTE +
+            "add over a non-zero sentinel with overlapping rows is proved only for duplicate-free expansions "
+            "(ranges_eq_explicit_pre_partial; the full statement is false when an intermediate sum equals the sentinel).",
+            TECH, "6 C08"),
+    'C11': ("Lean proof of the coverage-scoped semantics of boolean map/constant operators, invert involution, copying "
+            "= in-place, lattice laws on common coverage; correspondence over packed/unpacked mixes", NOTE, TECH, "6 C11"),
+    'C12': ("Lean proof that scalar operators, apply_mask, astype, as_bit_packed_map act on exactly the valid pixels and "
+            "preserve layout; correspondence over dtypes, sentinels, in-place/copying twins", NOTE, TECH, "6 C12"),
+    'C13': ("Lean proof of the bit-set semantics of wide-mask rows (pack_testBit, set/clear/xor/and/check specs, "
+            "validity iff non-empty, width rules); correspondence over widths and byte-boundary bits with every bit "
+            "read back", NOTE, TECH, "6 C13"),
+    'C17': ("Lean proof that the MOC writer covers exactly the valid set with disjoint cells no coarser than the "
+            "coverage order and that read(write) restores it (moc_cover, moc_disjoint, moc_order_ge_cov, moc_maximal, "
+            "moc_read_write), with witnesses for the two repaired defects; correspondence of UNIQ columns and "
+            "read-back maps", NOTE + "float64 log2 flooring and the FITS table layer are trusted.", TECH, "6 C17"),
 }
 NOT_YET = "check not built yet in this round (work in progress; see DESIGN.md section 12)"
 
